@@ -3,6 +3,25 @@ from checks import oracles
 from checks.durable_check import replay_execution, run_durable
 
 
+def page_fault_sweep(ctx, execs):
+    """the answer of a (successful) checkpoint call is paginated and the k-th page fetch fails, for every k - also while a branch of a
+    map / parallel is re-traversed inside the same invocation: what the backend recorded must not be forgotten"""
+    from checks.durable_common import CURATED, run_campaign
+    conc = [{"nodes": [{"k": "par", "branches": [[{"k": "step"}, {"k": "wait", "s": 1}, {"k": "step"}],
+                                                 [{"k": "step", "dur": 3}]]}, {"k": "step"}]},
+            {"nodes": [{"k": "map", "branches": [[{"k": "step"}, {"k": "step", "fail": 1, "max": 2, "delay": 1}, {"k": "step"}],
+                                                 [{"k": "step", "dur": 2.5}, {"k": "step"}]]}, {"k": "step"}]}]
+    items = []
+    for p in [CURATED["s01_step_wait_retry"], CURATED["s07_nested_children"]] + conc:
+        for pg in (0, 1):
+            for k in range(1, (8 if ctx.quick else 16)):
+                items.append((p, {"seed": 500 + k, "resp_page": pg, "get_state_fault": k, "max_inv": 14, "api_latency": (0.0, 0.05)[k % 2]}))
+    out = run_campaign(ctx, items)
+    for e in out:
+        oracles.c01(ctx, e)
+    return out
+
+
 def run(ctx):
     run_durable(ctx,
                 model=["s01_step_wait_retry", "s03_child_wfc", "s04_cb_invoke", "s07_nested_children", "s08_large_child"],
@@ -18,6 +37,7 @@ def run(ctx):
                 oracle_fns=[oracles.c01],
                 scen_kw={"crash": 0.6, "paging": 0.7},
                 sweep=["s03_child_wfc"],
+                post=page_fault_sweep,
                 extra_rule="Oracle: no function entry while the backend holds a terminal record; every delivery after the first completed "
                            "one equals it; histories are paginated randomly (including an empty first page).")
 
